@@ -4,6 +4,8 @@
 import MitmVerif.Model.C17
 namespace MitmVerif.C17
 
+variable {org crl : Option Bytes}
+
 /-! ### dict lemmas -/
 
 theorem filter_and_le {α : Type} (P Q : α → Bool) (l : List α) :
@@ -255,10 +257,10 @@ theorem inv0_setAll {s : Store} (h : Inv0 s) (e : Entry) (he : e.custom = true) 
     exact ih (s := { s with certs := setKey (.name n) e s.certs }) (inv0_setName h n e he)
 
 /-- a fresh generated entry is stored under its (unused) key and appended to the queue -/
-theorem inv0_push {s : Store} (h : Inv0 s) (cn : Option Bytes) (sans : List San)
+theorem inv0_push {s : Store} (h : Inv0 s) (cn : Option Bytes) (sans : List San) (org crl : Option Bytes)
     (hnone : lookup (.gen cn sans) s.certs = none) :
-    Inv0 { certs := setKey (.gen cn sans) ⟨false, s.next, cn, sans⟩ s.certs,
-           queue := s.queue ++ [⟨false, s.next, cn, sans⟩], next := s.next + 1 } := by
+    Inv0 { certs := setKey (.gen cn sans) ⟨false, s.next, cn, sans, org, crl⟩ s.certs,
+           queue := s.queue ++ [⟨false, s.next, cn, sans, org, crl⟩], next := s.next + 1 } := by
   constructor
   · intro k v hkv
     rcases mem_setKey.mp hkv with ⟨hk, hv⟩ | ⟨hm, _⟩
@@ -324,7 +326,7 @@ theorem inv0_pop {m : List (Key × Entry)} {d : Entry} {rest : List Entry} {n : 
     omega
 
 theorem inv_getCert {cap : Nat} {s : Store} (h : Inv cap s) (ok : Bool) (cn : Option Bytes) (sans : List San) :
-    Inv cap (getCert cap ok s cn sans).1 := by
+    Inv cap (getCert cap ok s cn sans org crl).1 := by
   unfold getCert
   split
   · exact h
@@ -332,7 +334,7 @@ theorem inv_getCert {cap : Nat} {s : Store} (h : Inv cap s) (ok : Bool) (cn : Op
     split
     · have hg : lookup (.gen cn sans) s.certs = none :=
         firstHit_none hnone _ (by simp [potentialKeys])
-      have hpush := inv0_push h.1 cn sans hg
+      have hpush := inv0_push h.1 cn sans org crl hg
       simp only [expire]
       split
       · rename_i heq; simp at heq
@@ -341,7 +343,7 @@ theorem inv_getCert {cap : Nat} {s : Store} (h : Inv cap s) (ok : Bool) (cn : Op
         · rename_i hlen
           rw [heq] at hpush
           refine ⟨inv0_pop hpush, ?_⟩
-          have : (s.queue ++ [(⟨false, s.next, cn, sans⟩ : Entry)]).length = (d :: rest).length := by rw [heq]
+          have : (s.queue ++ [(⟨false, s.next, cn, sans, org, crl⟩ : Entry)]).length = (d :: rest).length := by rw [heq]
           have hq := h.2
           simp at this ⊢; omega
         · rename_i hlen
@@ -356,7 +358,7 @@ theorem inv_addCert {cap : Nat} {s : Store} (h : Inv cap s) (id : Nat) (cn : Opt
 
 theorem inv_step {cap : Nat} {s : Store} (h : Inv cap s) (op : Op) : Inv cap (step cap s op).1 := by
   cases op with
-  | get ok cn sans => exact inv_getCert h ok cn sans
+  | get ok cn sans org crl => exact inv_getCert h ok cn sans
   | add id cn sans names => exact inv_addCert h id cn sans names
 
 theorem inv_run {cap : Nat} {s : Store} (h : Inv cap s) (ops : List Op) : Inv cap (run cap s ops) := by
@@ -366,19 +368,19 @@ theorem inv_run {cap : Nat} {s : Store} (h : Inv cap s) (ops : List Op) : Inv ca
 
 /-! ### case analysis of get_cert -/
 
-def freshEntry (s : Store) (cn : Option Bytes) (sans : List San) : Entry := ⟨false, s.next, cn, sans⟩
+def freshEntry (s : Store) (cn : Option Bytes) (sans : List San) (org crl : Option Bytes) : Entry := ⟨false, s.next, cn, sans, org, crl⟩
 
-theorem getCert_cases (cap : Nat) (ok : Bool) (s : Store) (cn : Option Bytes) (sans : List San) :
-    (∃ e, firstHit s.certs (potentialKeys cn sans) = some e ∧ getCert cap ok s cn sans = (s, .hit e)) ∨
-    (firstHit s.certs (potentialKeys cn sans) = none ∧ ok = false ∧ getCert cap ok s cn sans = (s, .err)) ∨
+theorem getCert_cases (cap : Nat) (ok : Bool) (s : Store) (cn : Option Bytes) (sans : List San) (org crl : Option Bytes) :
+    (∃ e, firstHit s.certs (potentialKeys cn sans) = some e ∧ getCert cap ok s cn sans org crl = (s, .hit e)) ∨
+    (firstHit s.certs (potentialKeys cn sans) = none ∧ ok = false ∧ getCert cap ok s cn sans org crl = (s, .err)) ∨
     (firstHit s.certs (potentialKeys cn sans) = none ∧ ok = true ∧
-      ∃ d rest, s.queue ++ [freshEntry s cn sans] = d :: rest ∧
-        ((cap < rest.length + 1 ∧ getCert cap ok s cn sans =
-            ({ certs := (setKey (.gen cn sans) (freshEntry s cn sans) s.certs).filter (fun p => decide (p.2 ≠ d)),
-               queue := rest, next := s.next + 1 }, .fresh (freshEntry s cn sans))) ∨
-         (rest.length + 1 ≤ cap ∧ getCert cap ok s cn sans =
-            ({ certs := setKey (.gen cn sans) (freshEntry s cn sans) s.certs,
-               queue := d :: rest, next := s.next + 1 }, .fresh (freshEntry s cn sans))))) := by
+      ∃ d rest, s.queue ++ [freshEntry s cn sans org crl] = d :: rest ∧
+        ((cap < rest.length + 1 ∧ getCert cap ok s cn sans org crl =
+            ({ certs := (setKey (.gen cn sans) (freshEntry s cn sans org crl) s.certs).filter (fun p => decide (p.2 ≠ d)),
+               queue := rest, next := s.next + 1 }, .fresh (freshEntry s cn sans org crl))) ∨
+         (rest.length + 1 ≤ cap ∧ getCert cap ok s cn sans org crl =
+            ({ certs := setKey (.gen cn sans) (freshEntry s cn sans org crl) s.certs,
+               queue := d :: rest, next := s.next + 1 }, .fresh (freshEntry s cn sans org crl))))) := by
   unfold getCert freshEntry
   cases hf : firstHit s.certs (potentialKeys cn sans) with
   | some e => left; exact ⟨e, rfl, rfl⟩
@@ -389,7 +391,7 @@ theorem getCert_cases (cap : Nat) (ok : Bool) (s : Store) (cn : Option Bytes) (s
     | true =>
       right
       refine ⟨rfl, rfl, ?_⟩
-      cases hq : s.queue ++ [(⟨false, s.next, cn, sans⟩ : Entry)] with
+      cases hq : s.queue ++ [(⟨false, s.next, cn, sans, org, crl⟩ : Entry)] with
       | nil => simp at hq
       | cons d rest =>
         refine ⟨d, rest, rfl, ?_⟩
@@ -403,7 +405,7 @@ theorem getCert_cases (cap : Nat) (ok : Bool) (s : Store) (cn : Option Bytes) (s
 
 /-- `e` is a custom certificate that some `add_cert` of the history registered under the name `n` -/
 def Registered (ops : List Op) (n : Bytes) (e : Entry) : Prop :=
-  ∃ id cn sans names, Op.add id cn sans names ∈ ops ∧ e = ⟨true, id, cn, sans⟩ ∧ n ∈ addKeys cn sans names
+  ∃ id cn sans names, Op.add id cn sans names ∈ ops ∧ e = ⟨true, id, cn, sans, none, none⟩ ∧ n ∈ addKeys cn sans names
 
 theorem mem_setAll {k : Key} {v e : Entry} {m : List (Key × Entry)} {ns : List Bytes}
     (h : (k, v) ∈ setAll e m ns) : (k, v) ∈ m ∨ (v = e ∧ ∃ n ∈ ns, k = .name n) := by
@@ -418,8 +420,8 @@ theorem mem_setAll {k : Key} {v e : Entry} {m : List (Key × Entry)} {ns : List 
     · right; exact ⟨hv, n', List.mem_cons_of_mem _ hn', hk⟩
 
 theorem name_mem_getCert {cap : Nat} {ok : Bool} {s : Store} {cn : Option Bytes} {sans : List San} {n : Bytes}
-    {e : Entry} (h : (Key.name n, e) ∈ (getCert cap ok s cn sans).1.certs) : (Key.name n, e) ∈ s.certs := by
-  rcases getCert_cases cap ok s cn sans with ⟨e', _, hg⟩ | ⟨_, _, hg⟩ | ⟨_, _, d, rest, _, ⟨_, hg⟩ | ⟨_, hg⟩⟩
+    {e : Entry} (h : (Key.name n, e) ∈ (getCert cap ok s cn sans org crl).1.certs) : (Key.name n, e) ∈ s.certs := by
+  rcases getCert_cases cap ok s cn sans org crl with ⟨e', _, hg⟩ | ⟨_, _, hg⟩ | ⟨_, _, d, rest, _, ⟨_, hg⟩ | ⟨_, hg⟩⟩
   · rw [hg] at h; exact h
   · rw [hg] at h; exact h
   · rw [hg] at h
@@ -435,7 +437,7 @@ theorem name_mem_getCert {cap : Nat} {ok : Bool} {s : Store} {cn : Option Bytes}
 theorem name_mem_step {cap : Nat} {s : Store} {op : Op} {n : Bytes} {e : Entry}
     (h : (Key.name n, e) ∈ (step cap s op).1.certs) : (Key.name n, e) ∈ s.certs ∨ Registered [op] n e := by
   cases op with
-  | get ok cn sans => left; exact name_mem_getCert h
+  | get ok cn sans org crl => left; exact name_mem_getCert h
   | add id cn sans names =>
     simp only [step, addCert] at h
     rcases mem_setAll h with h1 | ⟨hv, n', hn', hk⟩
@@ -466,21 +468,21 @@ theorem reg_run (cap : Nat) (ops : List Op) : ∀ (s : Store) (P : Bytes → Ent
 
 theorem lookup_name_getCert {cap : Nat} {s : Store} (h : Inv cap s) (ok : Bool) (cn : Option Bytes)
     (sans : List San) (n : Bytes) :
-    lookup (.name n) (getCert cap ok s cn sans).1.certs = lookup (.name n) s.certs := by
-  rcases getCert_cases cap ok s cn sans with ⟨e', _, hg⟩ | ⟨_, _, hg⟩ | ⟨hnone, _, d, rest, hq, ⟨_, hg⟩ | ⟨_, hg⟩⟩
+    lookup (.name n) (getCert cap ok s cn sans org crl).1.certs = lookup (.name n) s.certs := by
+  rcases getCert_cases cap ok s cn sans org crl with ⟨e', _, hg⟩ | ⟨_, _, hg⟩ | ⟨hnone, _, d, rest, hq, ⟨_, hg⟩ | ⟨_, hg⟩⟩
   · rw [hg]
   · rw [hg]
   · rw [hg]
     have hgk : lookup (.gen cn sans) s.certs = none := firstHit_none hnone _ (by simp [potentialKeys])
-    have hpush := inv0_push h.1 cn sans hgk
-    show lookup (.name n) ((setKey (.gen cn sans) (freshEntry s cn sans) s.certs).filter
+    have hpush := inv0_push h.1 cn sans org crl hgk
+    show lookup (.name n) ((setKey (.gen cn sans) (freshEntry s cn sans org crl) s.certs).filter
       (fun p => decide (p.2 ≠ d))) = _
     rw [lookup_filter_of_all]
     · simp [lookup_setKey]
     · intro v hv
       have hc : v.custom = true := hpush.certs_ok (.name n) v hv
       have hd : d.custom = false := (hpush.queue_ok d (by
-        show d ∈ s.queue ++ [freshEntry s cn sans]
+        show d ∈ s.queue ++ [freshEntry s cn sans org crl]
         rw [hq]; simp)).1
       simp only [decide_eq_true_eq]
       intro heq; rw [heq, hd] at hc; cases hc
@@ -488,7 +490,7 @@ theorem lookup_name_getCert {cap : Nat} {s : Store} (h : Inv cap s) (ok : Bool) 
     simp [lookup_setKey]
 
 def Op.isGet : Op → Bool
-  | .get _ _ _ => true
+  | .get _ _ _ _ _ => true
   | .add _ _ _ _ => false
 
 theorem lookup_name_run {cap : Nat} (mid : List Op) (hmid : ∀ op ∈ mid, op.isGet = true) :
@@ -500,7 +502,7 @@ theorem lookup_name_run {cap : Nat} (mid : List Op) (hmid : ∀ op ∈ mid, op.i
     simp only [run]
     rw [ih (fun o ho => hmid o (List.mem_cons_of_mem _ ho)) (inv_step h op)]
     cases op with
-    | get ok cn sans => exact lookup_name_getCert h ok cn sans n
+    | get ok cn sans org crl => exact lookup_name_getCert h ok cn sans n
     | add id cn sans names => have := hmid _ (List.mem_cons_self ..); simp [Op.isGet] at this
 
 /-! ### the expire queue is the tail of the creation log -/
@@ -516,14 +518,14 @@ theorem fifo_step {cap : Nat} {hist : List Entry} {s : Store} (hi : Inv cap s) (
   | add id cn sans names =>
     simp only [gens, step, addCert, List.append_nil]
     exact ⟨h.split, h.ids, h.gen⟩
-  | get ok cn sans =>
+  | get ok cn sans org crl =>
     simp only [gens, step]
-    rcases getCert_cases cap ok s cn sans with ⟨e', _, hg⟩ | ⟨_, _, hg⟩ | ⟨hnone, _, d, rest, hq, ⟨hlen, hg⟩ | ⟨hlen, hg⟩⟩
+    rcases getCert_cases cap ok s cn sans org crl with ⟨e', _, hg⟩ | ⟨_, _, hg⟩ | ⟨hnone, _, d, rest, hq, ⟨hlen, hg⟩ | ⟨hlen, hg⟩⟩
     · rw [hg]; simpa using h
     · rw [hg]; simpa using h
     · rw [hg]
       obtain ⟨ev, hev, _⟩ := h.split
-      have hl : (s.queue ++ [freshEntry s cn sans]).length = (d :: rest).length := by rw [hq]
+      have hl : (s.queue ++ [freshEntry s cn sans org crl]).length = (d :: rest).length := by rw [hq]
       have hcap := hi.2
       simp at hl
       refine ⟨⟨ev ++ [d], ?_, ?_⟩, ?_, ?_⟩
@@ -536,7 +538,7 @@ theorem fifo_step {cap : Nat} {hist : List Entry} {s : Store} (hi : Inv cap s) (
         · subst he; rfl
     · rw [hg]
       obtain ⟨ev, hev, hor⟩ := h.split
-      have hl : (s.queue ++ [freshEntry s cn sans]).length = (d :: rest).length := by rw [hq]
+      have hl : (s.queue ++ [freshEntry s cn sans org crl]).length = (d :: rest).length := by rw [hq]
       simp at hl
       refine ⟨⟨ev, ?_, ?_⟩, ?_, ?_⟩
       · simp only [hev, List.append_assoc, hq]
@@ -565,5 +567,43 @@ theorem fifo_run {cap : Nat} (ops : List Op) : ∀ {hist : List Entry} {s : Stor
 
 theorem fifo_empty (cap : Nat) : Fifo cap [] Store.empty :=
   ⟨⟨[], by simp [Store.empty], Or.inl rfl⟩, by simp [Store.empty], by simp⟩
+
+/-! ### where a generated entry's organization / crl_url come from -/
+
+/-- `e` was generated by a `get_cert` of the history asking for exactly `e`'s names, organization and crl_url -/
+def GeneratedBy (ops : List Op) (e : Entry) : Prop :=
+  ∃ ok, Op.get ok e.cn e.sans e.org e.crl ∈ ops
+
+theorem queue_mem_getCert {cap : Nat} {ok : Bool} {s : Store} {cn : Option Bytes} {sans : List San} {e : Entry}
+    (h : e ∈ (getCert cap ok s cn sans org crl).1.queue) : e ∈ s.queue ∨ e = freshEntry s cn sans org crl := by
+  rcases getCert_cases cap ok s cn sans org crl with ⟨e', _, hg⟩ | ⟨_, _, hg⟩ | ⟨_, _, d, rest, hq, ⟨_, hg⟩ | ⟨_, hg⟩⟩
+  · rw [hg] at h; left; exact h
+  · rw [hg] at h; left; exact h
+  · rw [hg] at h
+    have : e ∈ s.queue ++ [freshEntry s cn sans org crl] := by rw [hq]; exact List.mem_cons_of_mem _ h
+    simpa using this
+  · rw [hg] at h
+    have : e ∈ s.queue ++ [freshEntry s cn sans org crl] := by rw [hq]; exact h
+    simpa using this
+
+theorem gen_run (cap : Nat) (ops : List Op) : ∀ (s : Store) (P : Entry → Prop), (∀ e ∈ s.queue, P e) →
+    ∀ e ∈ (run cap s ops).queue, P e ∨ GeneratedBy ops e := by
+  induction ops with
+  | nil => intro s P h e he; left; exact h e he
+  | cons op ops ih =>
+    intro s P h e he
+    simp only [run] at he
+    have hstep : ∀ x ∈ (step cap s op).1.queue, P x ∨ GeneratedBy [op] x := by
+      intro x hx
+      cases op with
+      | add id cn sans names => left; exact h x hx
+      | get ok cn sans org crl =>
+        rcases queue_mem_getCert hx with h1 | h1
+        · left; exact h x h1
+        · right; subst h1; exact ⟨ok, by simp [freshEntry]⟩
+    rcases ih (step cap s op).1 (fun x => P x ∨ GeneratedBy [op] x) hstep e he with (h1 | ⟨ok, hm⟩) | ⟨ok, hm⟩
+    · left; exact h1
+    · right; simp at hm; exact ⟨ok, by simp [hm]⟩
+    · right; exact ⟨ok, List.mem_cons_of_mem _ hm⟩
 
 end MitmVerif.C17
